@@ -244,21 +244,23 @@ func c09Keys(p *core.Prog, r *core.Run, m *echModel, rule string) {
 		whole := false
 		switch {
 		case v.Op == "param" || v.Op == "cell" || v.Op == "phi":
-			whole = v.Op == "param"
+			// a plain assignment drops the keys an earlier option configured
+			// (adding keys must never lose one) and shares the caller's array
+			whole = false
 		case v.Op == "call" && v.Name == "append" && len(v.Args) == 2:
 			// append(c.keys, keys...) with keys the enclosing option's parameter
 			base, add := v.Args[0], v.Args[1]
 			whole = base.Op == "field" && base.Obj == m.fConn["keys"] && add.Op == "param"
-		case v.Op == "call" && (v.Name == "slices.Clone" || v.Name == "slices.Concat"):
-			whole = true
-			for _, a := range v.Args {
-				if !(a.Op == "param" || a.Op == "field" && a.Obj == m.fConn["keys"]) {
+		case v.Op == "call" && v.Name == "slices.Concat":
+			whole = len(v.Args) >= 2 && v.Args[0].Op == "field" && v.Args[0].Obj == m.fConn["keys"]
+			for _, a := range v.Args[1:] {
+				if a.Op != "param" {
 					whole = false
 				}
 			}
 		}
 		uncond := len(p.Facts(st.Block())) == 0
-		r.Check(rule, fmt.Sprintf("keys:store#%d", n), whole && uncond, p.InstrPos(st), "Conn.keys receives the caller's key list whole (%v) and unconditionally (%v): %s", whole, uncond, short(v))
+		r.Check(rule, fmt.Sprintf("keys:store#%d", n), whole && uncond, p.InstrPos(st), "Conn.keys keeps what it held and receives a copy of the caller's key list, whole (%v) and unconditionally (%v): %s", whole, uncond, short(v))
 	}
 	r.Check(rule, "keys:stores", n >= 1, p.Pos(m.newConn.Pos()), "stores to Conn.keys examined (%d)", n)
 }
